@@ -309,7 +309,7 @@ class TermCanvas(Canvas):
         if y is None:
             y = self.term_cursor[1]
 
-        self.term_cursor = self.constrain_coords(x, y)
+        self.term_cursor = x, y = self.constrain_coords(x, y)
 
         if self.has_focus and self.modes.visible_cursor and self.scrolling_up < self.height - y:
             self.cursor = (x, y + self.scrolling_up)
